@@ -68,6 +68,9 @@ pub struct Scenario {
     /// releases the shared block from inside a wake call
     #[serde(default)]
     pub final_wake: bool,
+    /// the children do not keep the waker they are polled with (like `future::pending()`): nobody can wake them
+    #[serde(default)]
+    pub nokeep: bool,
     #[serde(default)]
     pub id: String,
 }
@@ -725,6 +728,7 @@ pub fn run_scenario(sc: &Scenario, run: u64, hooklog: bool) {
         for (c, n) in &sc.stream_left {
             w.stream_left.insert(*c, *n);
         }
+        w.nokeep = sc.nokeep;
         for c in &sc.drop_panic {
             w.drop_panic.insert(*c);
         }
